@@ -5,8 +5,9 @@ A node is {"id", "kind", "nk", "name", "perm", "doc", "doc2", "display", "intern
   kind     what to render: file module submodule program subroutine function modproc modsub modfun type generic
            explicit abstract mpiface var comp bound final enum enumerator common commonvar namelist blockdata arg
   nk       the model's node kind (NFile NModule NSubmodule NProgram NProc NType NBlockData NOther)
-  perm     the permission FORD gives the entity (C04 decides that; the renderer writes the attribute / access
-           statement that makes it so in the simplest way: default statement first, explicit keyword otherwise)
+  perm     the accessibility Fortran defines for the entity (the renderer writes the attribute / access
+           statement that makes it so: default statement first, explicit keyword otherwise; a constructor
+           interface takes its type's);  fperm  entity.permission as FORD reports it, filled in by the harness
   doc      the entity carries a doc comment with tracer words  zq<id>w0 zq<id>w1
   doc2     (nameless / abstract interface blocks) the procedure inside carries its own comment  zq<id>w5
   display  words of a `display:` metadata entry ([] = none given);  internals  None | True | False
@@ -59,7 +60,7 @@ def coq_word(w):
 
 def coq_node(n):
     internals = "None" if n["internals"] is None else f"(Some {coq_bool(n['internals'])})"
-    a = (f"(mk_attrs {n['id']} {CP[n['perm']]} {coq_bool(n['doc'])} {coq_bool(n['doc2'])} "
+    a = (f"(mk_attrs {n['id']} {CP[n.get('fperm') or n['perm']]} {CP[n['perm']]} {coq_bool(n['doc'])} {coq_bool(n['doc2'])} "
          f"{coq_list(coq_word(w) for w in n['display'])} {internals})")
     cs = coq_list(f"({LN[l]}, {coq_node(c)})" for l, c in n["children"])
     return f"Node {n['nk']} {a} {cs}"
@@ -126,6 +127,7 @@ def gen_proc(rng, ids, kind, perm, inner_perm, knobs, depth=0, prefix=None):
 def gen_type(rng, ids, perm, targets, knobs, in_proc=False, finals=()):
     t = mk(ids, "type", "NType", "t", perm, rdoc(rng))
     t["display"] = rdisplay(rng, knobs.get("p_meta", 0.2))
+    t["by_stmt"] = (not in_proc) and rng.random() < 0.4       # accessibility by access statement, not attribute
     t["comp_default"] = rng.choice([None, None, "private"])
     t["bind_default"] = rng.choice([None, None, "private"])
     for _ in range(rng.choice([0, 1, 2, 3])):
@@ -159,14 +161,14 @@ def gen_explicit(rng, ids, kind, perm, module_proc=False):
 
 
 def gen_enum(rng, ids, perm):
-    e = mk(ids, "enum", "NOther", "en", perm, rdoc(rng))
+    e = mk(ids, "enum", "NEnum", "en", perm, rdoc(rng))
     for _ in range(rng.choice([1, 2])):
         e["children"].append(["variables", mk(ids, "enumerator", "NOther", "e", perm, rdoc(rng))])
     return e
 
 
 def gen_common(rng, ids):
-    c = mk(ids, "common", "NOther", "cb", "public", rdoc(rng))
+    c = mk(ids, "common", "NCommon", "cb", "public", rdoc(rng))
     for _ in range(rng.choice([1, 2])):
         c["children"].append(["variables", mk(ids, "commonvar", "NOther", "cv", "public", False)])
     return c
@@ -195,6 +197,13 @@ def gen_module(rng, ids, knobs, with_submodule=False):
     for _ in range(rng.choice([0, 1, 2])):
         ch.append(["types", gen_type(rng, ids, perm(), targets, knobs, finals=finals if rng.random() < 0.7 else ())])
         finals = []
+    # constructor interfaces: a generic interface named after a derived type has the type's accessibility
+    for t in [c for l, c in ch if l == "types"]:
+        if rng.random() < knobs.get("p_constructor", 0.5):
+            g = mk(ids, "constructor", "NOther", "g", t["perm"], rdoc(rng))
+            g["ctor_of"] = t["name"]
+            g["members"] = rng.sample(targets, rng.choice([1, min(2, len(targets))]))
+            ch.append(["interfaces", g])
     for _ in range(rng.choice([0, 1, 2])):
         r = rng.random()
         if r < 0.5:
@@ -349,7 +358,7 @@ def arglist(n):
 
 
 def render_type(t, ind, dflt):
-    attr = f", {t['perm']}" if t["perm"] != dflt else ""
+    attr = f", {t['perm']}" if t["perm"] != dflt and not t.get("by_stmt") else ""
     out = [f"{ind}type{attr} :: {t['name']}"] + doc_lines(t, ind + "  ")
     i2 = ind + "  "
     cd = "private" if t.get("comp_default") else "public"
@@ -416,11 +425,11 @@ def render_spec(n, ind, dflt, access_ok):
     for t in kids(n, "types"):
         out += render_type(t, ind, dflt)
     for x in kids(n, "interfaces"):
-        if x["kind"] == "generic":
-            out.append(f"{ind}interface {x['name']}")
+        if x["kind"] in ("generic", "constructor"):
+            out.append(f"{ind}interface {fname(x)}")
             out += doc_lines(x, ind + "  ")
             out.append(f"{ind}  module procedure " + ", ".join(x["members"]))
-            out.append(f"{ind}end interface {x['name']}")
+            out.append(f"{ind}end interface {fname(x)}")
         else:
             out += render_iface_block(x, ind)
     for x in kids(n, "absinterfaces"):
@@ -470,7 +479,10 @@ def render_proc(p, ind, dflt):
 
 
 def fname(n):
-    """the name FORD will report for the node (module-procedure implementations carry the interface's name)"""
+    """the name FORD will report for the node (module-procedure implementations carry the interface's name,
+    constructor interfaces the type's)"""
+    if n["kind"] == "constructor":
+        return n["ctor_of"]
     return n["implements"]["name"] if n["kind"] in ("modproc", "modsub", "modfun") else n["name"]
 
 
@@ -486,7 +498,9 @@ def render_unit(u):
         out.append("  implicit none")
         if u.get("default"):
             out.append("  " + u["default"])
-        named = [c for l, c in u["children"] if l in ("functions", "subroutines", "interfaces", "absinterfaces")]
+        named = [c for l, c in u["children"] if l in ("functions", "subroutines", "interfaces", "absinterfaces")
+                 and c["kind"] != "constructor"]
+        named += [c for l, c in u["children"] if l == "types" and c.get("by_stmt")]
         for acc in ("public", "private"):
             names = [c["name"] for c in named if c["perm"] == acc and acc != dflt]
             if names:
@@ -588,8 +602,12 @@ def template_project():
     x["children"] = [["args", mk(ids, "arg", "NOther", "a", "public", True)]]
     ai = mk(ids, "abstract", "NOther", "ai", "private", True, isfun=True)
     ai["children"] = [["args", mk(ids, "arg", "NOther", "a", "private", False)]]
+    k1 = mk(ids, "constructor", "NOther", "g", "public", True)
+    k1["ctor_of"], k1["members"] = t["name"], [targets[0]]
+    k2 = mk(ids, "constructor", "NOther", "g", "private", True)
+    k2["ctor_of"], k2["members"] = t2["name"], [targets[1]]
     m["children"] = [["types", t], ["types", t2], ["interfaces", g], ["interfaces", g2], ["interfaces", x],
-                     ["absinterfaces", ai]]
+                     ["interfaces", k1], ["interfaces", k2], ["absinterfaces", ai]]
     for perm, doc in (("public", True), ("private", True), ("protected", True), ("public", False)):
         m["children"].append(["variables", mk(ids, "var", "NOther", "v", perm, doc)])
     m["children"] += [["subroutines", p_pub], ["functions", p_priv], ["subroutines", p_undoc]]
